@@ -40,25 +40,33 @@ GDT = "src/structures/gdt.rs"
 SEG = "src/registers/segmentation.rs"
 LIB = "src/lib.rs"
 TSS = "src/structures/tss.rs"
+IDT = "src/structures/idt.rs"
+TLB = "src/instructions/tlb.rs"
+DBG = "src/registers/debug.rs"
 
 # Erased newtypes: nominal type -> underlying integer type.
 NEWTYPES = {
     "VirtAddr": "u64", "PhysAddr": "u64", "PageTableIndex": "u16", "PageOffset": "u16", "PageTableLevel": "u8",
     "Page": "u64", "PhysFrame": "u64", "PageTableEntry": "u64", "PageTableFlags": "u64",
     "SegmentSelector": "u16", "PrivilegeLevel": "u8", "DescriptorFlags": "u64",
+    "SelectorErrorCode": "u64", "Pcid": "u16", "Dr7Value": "u64", "Dr7Flags": "u64", "Dr6Flags": "u64",
 }
 # Field names of the erased single-field structs (reading the field is the identity).
-NEWTYPE_FIELDS = {"Page": "start_address", "PhysFrame": "start_address", "PageTableEntry": "entry"}
-IGNORED_FIELDS = {"size"}   # PhantomData
+NEWTYPE_FIELDS = {"Page": "start_address", "PhysFrame": "start_address", "PageTableEntry": "entry",
+                  "SelectorErrorCode": "flags", "Dr7Value": "bits"}
+IGNORED_FIELDS = {"size", "phantom"}   # PhantomData
 # Multi-field structs: name -> [(field, type name)]
 STRUCTS = {
     "PageRange": [("start", "Page"), ("end", "Page")],
     "PageRangeInclusive": [("start", "Page"), ("end", "Page")],
     "PhysFrameRange": [("start", "PhysFrame"), ("end", "PhysFrame")],
     "PhysFrameRangeInclusive": [("start", "PhysFrame"), ("end", "PhysFrame")],
+    "EntryOptions": [("cs", "SegmentSelector"), ("bits", "u16")],
+    "Entry": [("pointer_low", "u16"), ("options", "EntryOptions"), ("pointer_middle", "u16"), ("pointer_high", "u32"),
+              ("reserved", "u32")],
 }
 GENERIC_OWNERS = {"Page", "PhysFrame", "PageRange", "PageRangeInclusive", "PhysFrameRange", "PhysFrameRangeInclusive"}
-FLAG_TYPES = {"PageTableFlags", "DescriptorFlags"}
+FLAG_TYPES = {"PageTableFlags", "DescriptorFlags", "Dr7Flags", "Dr6Flags"}
 ENUMS = {"PageTableLevel", "PrivilegeLevel"}
 # Enums with data: name -> [(variant, [payload types])]; erased to the tuple (tag : u8, payload slots...), the slots
 # being the pointwise union of the variants' payloads (unused slots are zero).
@@ -226,6 +234,34 @@ TARGETS = [
     T(REC, None, "p3_page", generic=True, lean="rec_p3_page"),
     T(REC, None, "p2_page", generic=True, lean="rec_p2_page"),
     T(REC, None, "p1_page", size="Size4KiB", lean="rec_p1_page"),
+    # idt.rs: gate options and selector error codes (C12, C19); tlb.rs: PCIDs; debug.rs: DR7 values (C19)
+    T(IDT, "EntryOptions", "minimal", "EntryOptions"),
+    T(IDT, "EntryOptions", "set_code_selector", "EntryOptions"),
+    T(IDT, "EntryOptions", "set_present", "EntryOptions"),
+    T(IDT, "EntryOptions", "present", "EntryOptions"),
+    T(IDT, "EntryOptions", "disable_interrupts", "EntryOptions"),
+    T(IDT, "EntryOptions", "set_privilege_level", "EntryOptions"),
+    T(IDT, "EntryOptions", "privilege_level", "EntryOptions"),
+    T(IDT, "EntryOptions", "set_stack_index", "EntryOptions"),
+    T(IDT, "EntryOptions", "stack_index", "EntryOptions"),
+    T(IDT, "<F> Entry<F>", "missing", "Entry"),
+    T(IDT, "<F> Entry<F>", "handler_addr", "Entry"),
+    T(IDT, "SelectorErrorCode", "new", "SelectorErrorCode"),
+    T(IDT, "SelectorErrorCode", "new_truncate", "SelectorErrorCode"),
+    T(IDT, "SelectorErrorCode", "external", "SelectorErrorCode"),
+    T(IDT, "SelectorErrorCode", "index", "SelectorErrorCode"),
+    T(IDT, "SelectorErrorCode", "is_null", "SelectorErrorCode"),
+    T(TLB, "Pcid", "new", "Pcid"),
+    T(TLB, "Pcid", "value", "Pcid"),
+    T(DBG, "Dr7Value", "valid_bits", "Dr7Value"),
+    T(DBG, "Dr7Value", "from_bits", "Dr7Value"),
+    T(DBG, "Dr7Value", "from_bits_truncate", "Dr7Value"),
+    T(DBG, "Dr7Value", "bits", "Dr7Value"),
+    T(DBG, "Dr7Value", "flags", "Dr7Value"),
+    T(DBG, "Dr7Value", "insert_flags", "Dr7Value"),
+    T(DBG, "Dr7Value", "remove_flags", "Dr7Value"),
+    T(DBG, "Dr7Value", "toggle_flags", "Dr7Value"),
+    T(DBG, "Dr7Value", "set_flags", "Dr7Value"),
 ]
 
 SIGS_PATH = os.path.join(os.path.dirname(os.path.abspath(__file__)), "fn_sigs.json")
@@ -757,6 +793,8 @@ class Ty:
 
 
 def nominal(name):
+    if name in WIDTH or name == "bool":
+        return Ty(name)
     if name in NEWTYPES:
         return Ty(NEWTYPES[name], nom=name)
     if name in STRUCTS:
